@@ -254,7 +254,7 @@ def _all_prefixes(table, acc=""):
 def mount_case(draw):
     table = draw(tables())
     base = draw(st.sampled_from(_all_prefixes(table) + PREFIXES))
-    tail = draw(st.sampled_from(["", "/", "x", "/x/y", "/x", "//", "/a", "/a/b", "/é", ".b", "/b", "b"]))
+    tail = draw(st.sampled_from(["", "/", "x", "/x/y", "/x", "//", "/a", "/a/b", "/é", ".b", "/b", "b", "\n", "\r", "\n/x", "/\n", " ", "%", "?", "\x00", "\u2028", "\x0b"]))
     path = draw(st.one_of(st.just(base + tail), st.sampled_from(["", "/", "/zzz", "/abc", "/apixy", "/a.bc", "/ax/b", "nothing", "/éa"])))
     return {"table": table, "root": draw(st.sampled_from(["", "", "/root", "/é"])), "path": path}
 
@@ -262,7 +262,7 @@ def mount_case(draw):
 def grid_shard(rec, k, nshards):
     g = core.guarded(oracle_mounts)
     prefixes = ["", "/a", "/a/b", "/ab", "/é"]
-    paths = ["", "/", "/a", "/a/", "/ab", "/a/b", "/a/b/", "/a/bc", "/abc", "/ab/c", "/a/b/c/d", "/é", "/é/x", "/zzz"]
+    paths = ["", "/", "/a", "/a/", "/ab", "/a/b", "/a/b/", "/a/bc", "/abc", "/ab/c", "/a/b/c/d", "/é", "/é/x", "/zzz", "/a\n", "\n", "/a/b\n", "/a\n/b", "/a\r", "/ab\n"]
     i = 0
     for n in (1, 2, 3):
         for combo in itertools.product(prefixes, repeat=n):
